@@ -56,6 +56,13 @@ pub fn gen_hungarian(r: &mut Rng, tier: &str) -> Vec<Case> {
                 let m = gen::Matrix { nx, ny, w, dummy: vec![false; nx], mand: vec![false; ny], skipx, skipy: vec![false; ny] };
                 return Case { stream: "hungarian", data: json!({"m": m.to_json(), "layout": "c", "huge": false}) };
             }
+            if i % 60 == 17 {
+                // degenerate shapes: no rows, no columns, or everything skipped (an empty matching, score 0)
+                let (nx, ny) = [(0usize, 0usize), (0, 2), (2, 0), (2, 2), (3, 1)][r.usize(5)];
+                let m = gen::Matrix { nx, ny, w: (0..nx * ny).map(|_| r.below(9) as i32).collect(), dummy: vec![false; nx], mand: vec![false; ny],
+                    skipx: vec![true; nx], skipy: vec![true; ny] };
+                return Case { stream: "hungarian", data: json!({"m": m.to_json(), "layout": if i % 120 == 17 { "f" } else { "c" }, "huge": false}) };
+            }
             let adm = i % 8 != 7;
             let size = if i % 5 == 0 { maxn } else { 6 };
             // long rows (64 or more columns: vectorised paths, chunking), generic and caobab-shaped
